@@ -1057,6 +1057,9 @@ func parse_process_expression(tokens []*Token, index int) (AstProcessExpression,
 	if err != nil {
 		return nil, index + fail_index, err
 	}
+	if fail_index < len(exprTokens) {
+		return nil, index + fail_index, NewParseError(exprTokens[fail_index], "Unexpected token. Expected binary operator.")
+	}
 	return expr, next_index, nil
 }
 
